@@ -22,7 +22,7 @@ Fixpoint sched_events (s : list tid) (wi ri : nat) : list ev :=
 Definition qkind_of (k : nat) : qkind := match k with 1 => QStats | 3 => QGroupBy | _ => QRecords end.
 
 Definition sched_result (k B P : nat) (s : list tid) : list (nat * nat) :=
-  let y := run 1 true true one_batch (chunks P) (fun _ => qkind_of k) sys_init
+  let y := run 1 true true true one_batch (chunks P) (fun _ => qkind_of k) sys_init
                (Create 0 :: repeat (Flush 0) B ++ sched_events s 0 0) in
   result (rds y 0).
 
